@@ -93,6 +93,7 @@ type Client struct {
 	Lag       map[string]bool
 	Log       []Call
 	OnDelete  func(kind, name string) // called when a Delete is about to take effect
+	OnWrite   func(verb string, obj client.Object) // called when an Update/Patch is about to take effect
 	Evictions []string // pods evicted through the eviction subresource
 	PodDeletes []DeleteRecord
 }
@@ -341,6 +342,9 @@ func (c *Client) write(verb string, obj client.Object) error {
 	kind := kindOf(obj)
 	if err := c.fault(verb, kind, obj.GetName(), FaultConflict); err != nil {
 		return err
+	}
+	if c.OnWrite != nil {
+		c.OnWrite(verb, obj)
 	}
 	switch o := obj.(type) {
 	case *corev1.Node:
@@ -687,3 +691,32 @@ func (c *Client) LastOK(verb, kind string) (ok, found bool) {
 
 // Peek returns the latest reading without advancing the clock.
 func (c *Clock) Peek() (time.Time, bool) { return c.last, c.set }
+
+// HasFinalizer reports whether obj carries the finalizer.
+func HasFinalizer(obj client.Object, finalizer string) bool {
+	for _, f := range obj.GetFinalizers() {
+		if f == finalizer {
+			return true
+		}
+	}
+	return false
+}
+
+// StoredNode / StoredClaim return the API server's current copy (nil when gone).
+func (c *Client) StoredNode(name string) *corev1.Node {
+	for _, x := range c.Nodes {
+		if x.Name == name {
+			return x
+		}
+	}
+	return nil
+}
+
+func (c *Client) StoredClaim(name string) *v1.NodeClaim {
+	for _, x := range c.Claims {
+		if x.Name == name {
+			return x
+		}
+	}
+	return nil
+}
